@@ -21,17 +21,17 @@ DensL == {Blk(kd, FALSE, h, w, 0, 1, a, 1, b, 2, 600, 400) : kd \in FR, h \in {1
 \* temperatures: height, flux, both component temperatures, densities of the shared nuclide 2 in both components
 TempS == {Blk("fuel", FALSE, h, 1, 0, 1, 1, a, 2, 1, t1, t2) : h \in {1, 2}, a \in {0, 1}, t1 \in {400, 700}, t2 \in {300, 500}}
 TempM == {Blk("fuel", FALSE, h, w, 0, 1, 1, a, 2, 1, t1, t2) : h \in {1, 2}, w \in {1, 2}, a \in {0, 1}, t1 \in {400, 700}, t2 \in {300, 500}}
-TempL == {Blk(kd, FALSE, h, w, 0, 1, 1, a, b, 1, t1, t2) : kd \in FR, h \in {1, 2}, w \in {0, 1, 2}, a \in {0, 1}, b \in {0, 2}, t1 \in {400, 700}, t2 \in {300, 500}}
+TempL == {Blk("fuel", FALSE, h, w, 0, 1, 1, a, b, 1, t1, t2) : h \in {1, 2}, w \in {0, 1, 2}, a \in {0, 1}, b \in {0, 2}, t1 \in {400, 700}, t2 \in {300, 500}}
 \* burnup and the median: block type, height, flux, burnup, heavy-metal mass
 BurnX == {Blk(kd, FALSE, h, 1, bu, hm, 1, 1, 1, 1, 600, 400) : kd \in FR, h \in {1, 2}, bu \in {0, 3}, hm \in {0, 2}}
 BurnS == {Blk(kd, FALSE, h, 1, bu, hm, 1, 1, 1, 1, 600, 400) : kd \in FR, h \in {1, 2}, bu \in {0, 3, 8}, hm \in {0, 2}}
 BurnM == {Blk(kd, FALSE, h, w, bu, hm, 1, 1, 1, 1, 600, 400) : kd \in FR, h \in {1, 2}, w \in {0, 2}, bu \in {0, 3, 8}, hm \in {0, 1, 2}}
-BurnL == {Blk(kd, FALSE, h, w, bu, hm, 1, 1, 1, 1, 600, 400) : kd \in FR, h \in {1, 2, 3}, w \in {0, 1, 2}, bu \in {0, 3, 6, 8}, hm \in {0, 1, 2}}
+BurnL == {Blk(kd, FALSE, h, w, bu, hm, 1, 1, 1, 1, 600, 400) : kd \in FR, h \in {1, 2}, w \in {0, 2}, bu \in {0, 3, 6, 8}, hm \in {0, 1, 2}}
 \* block types and component flags: three types, matching / non-matching components, a component without mass
 KindX == {Blk(kd, al, 1, 1, 2, 1, 2, 1, 0, b, 700, 400) : kd \in FCR, al \in {FALSE, TRUE}, b \in {0, 1}}
 KindS == {Blk(kd, al, 1, 1, 2, 1, a, 1, 0, b, 700, 400) : kd \in FCR, al \in {FALSE, TRUE}, a \in {0, 2}, b \in {0, 1}}
 KindM == {Blk(kd, al, h, 1, 2, 1, a, 1, 0, b, t1, 400) : kd \in FCR, al \in {FALSE, TRUE}, h \in {1, 2}, a \in {0, 2}, b \in {0, 1}, t1 \in {400, 700}}
-KindL == {Blk(kd, al, h, w, bu, 1, a, 1, 0, b, t1, t2) : kd \in FCR, al \in {FALSE, TRUE}, h \in {1, 2}, w \in {1, 2}, bu \in {2, 5}, a \in {0, 2}, b \in {0, 1}, t1 \in {400, 700}, t2 \in {300, 500}}
+KindL == {Blk(kd, al, h, 1, bu, 1, a, 1, 0, b, t1, 400) : kd \in FCR, al \in {FALSE, TRUE}, h \in {1, 2}, bu \in {2, 5}, a \in {0, 2}, b \in {0, 1}, t1 \in {400, 700}}
 \* collections of three and four: everything varies a little
 TriX  == {Blk(kd, FALSE, 1 + p[1] \div 2, p[1], p[3], p[2], p[2], 1, 1, 1, 600 + 50 * p[1], 400) : kd \in FR, p \in {<<0, 0, 0>>, <<2, 2, 3>>, <<1, 1, 8>>}}
 TriS  == {Blk(kd, FALSE, h, p[1], p[3], p[2], p[2], 1, 1, 1, 600 + 50 * p[1], 400) : kd \in FR, h \in {1, 2}, p \in {<<0, 0, 0>>, <<2, 2, 3>>}}
@@ -55,7 +55,7 @@ MaxMcT(f) == IF f = "tri" THEN 4 ELSE 2
 \* cases for the real code, quick / thorough
 DomEmQ(f) == CASE f = "dens" -> DensM [] f = "temp" -> TempM [] f = "burn" -> BurnS [] f = "kind" -> KindS [] f = "tri" -> TriM
 MaxEmQ(f) == IF f = "tri" THEN 3 ELSE 2
-DomEmT(f) == CASE f = "dens" -> DensL [] f = "temp" -> TempL [] f = "burn" -> BurnL [] f = "kind" -> KindL [] f = "tri" -> TriM
+DomEmT(f) == CASE f = "dens" -> DensL [] f = "temp" -> TempL [] f = "burn" -> BurnL [] f = "kind" -> KindL [] f = "tri" -> TriS
 MaxEmT(f) == IF f = "tri" THEN 4 ELSE 2
 
 View == <<fam, members>>
